@@ -293,6 +293,7 @@ let sim_main () =
   let track = ref false in
   let proto = ref false in
   let sops = ref [] and semit = ref [] and cops = Hashtbl.create 4 and cemit = Hashtbl.create 4 and parts = ref [] in
+  let cleanup = ref false in
   let dead = ref false in
   let do_step st =
     match !sys with
@@ -353,6 +354,7 @@ let sim_main () =
          sys := Some (syse_init c (n_of_dec (get "nclients" "1")));
          dead := false; sops := []; semit := []; Hashtbl.reset cops; Hashtbl.reset cemit; parts := [];
          print_endline "scenario"
+       | ["cleanup"] -> cleanup := true; dot := false      (* oracle input: the repeating timer of cleanup_acks fires in the next server frame *)
        | ["authz"; c] ->
          (* oracle annotation: the implementation authorized this client in the coming server frame (protocol check) *)
          do_step (EBase (StAuthorize (n_of_dec c))); dot := false
@@ -379,8 +381,9 @@ let sim_main () =
        | "sframe" :: tick :: rest ->
          let dt = (match rest with d :: _ -> n_of_dec d | [] -> N0) in
          let ops = List.rev !sops and ps = List.rev !parts and em = List.rev !semit in
-         sops := []; parts := []; semit := [];
-         do_step (ESFrame (tick = "1", dt, ops, ps, em))
+         let cl = !cleanup in
+         sops := []; parts := []; semit := []; cleanup := false;
+         do_step (ESFrame (tick = "1", dt, cl, ops, ps, em))
        | ["cframe"; c] ->
          let ops = List.rev (try Hashtbl.find cops c with Not_found -> []) in
          let em = List.rev (try Hashtbl.find cemit c with Not_found -> []) in
